@@ -21,3 +21,6 @@ func TestC15(t *testing.T) { Check(t, "C15") }
 func TestC16(t *testing.T) { Check(t, "C16") }
 func TestC18(t *testing.T) { Check(t, "C18") }
 func TestC06(t *testing.T) { Check(t, "C06") }
+func TestC11(t *testing.T) { Check(t, "C11") }
+func TestC13(t *testing.T) { Check(t, "C13") }
+func TestC17(t *testing.T) { Check(t, "C17") }
